@@ -222,7 +222,11 @@ pub trait OHLCV: 'static {
 	/// assert!(!candle2.validate());
 	/// ```
 	fn validate(&self) -> bool {
-		!(self.close() > self.high() || self.close() < self.low() || self.high() < self.low())
+		!(self.close() > self.high()
+			|| self.close() < self.low()
+			|| self.open() > self.high()
+			|| self.open() < self.low()
+			|| self.high() < self.low())
 			&& self.close() > 0.
 			&& self.open() > 0.
 			&& self.high() > 0.
